@@ -136,10 +136,28 @@ def run_check(pid, tier, seed, write_baseline=False):
         except Exception as e:
             errors.append(f"native_checks: {type(e).__name__}: {e}")
 
+    # Bounded stand-ins that always run (a part of a function that its contract waives): a failing
+    # input is replayed on the real code by construction; labelled bounded in the evidence.
+    standins = []
+    if hasattr(prop, "bounded_checks"):
+        try:
+            for bc in prop.bounded_checks(tier, seed):
+                standins.append({"function": bc["function"], "tool": bc["tool"],
+                                 "budget": bc["bound"],
+                                 "outcome": "failing input found" if bc["failed"] else "nothing found"})
+                if bc["failed"]:
+                    kf = next((k for k in known_for if k.get("native_id") == bc["id"]), None)
+                    if kf is not None:
+                        known_hits.append((kf, bc))
+                    else:
+                        path = write_replay(pid, bc["id"], bc)
+                        violations.append(({"id": bc["id"]}, {"path": path}, ""))
+        except Exception as e:
+            errors.append(f"bounded_checks: {type(e).__name__}: {e}")
+
     # A function under contract that has left the verified subset is undecided; the property's
     # bounded stand-in (a native differential search, labelled bounded) is then run, and a failing
     # input it finds is a violation replayed on the real code.
-    standins = []
     if undecided and hasattr(prop, "STANDIN"):
         try:
             res = run_standin(prop.STANDIN, seed)
